@@ -18,6 +18,10 @@ CLAIMED = {
          "Proved for every duplicate-free candidate set, count and candidate order: taking any admissible selection of candidate sets preserves 'set = result + remaining' (as a permutation) and the count; the thread stage exhausts the count; hence any run made of contract-abiding stages followed by the thread stage returns exactly n distinct CPUs from the set and writes back the set minus exactly those; too-large requests fail unchanged; exact-size requests return the set; ReleaseCpus splits the set into |set|-n returned and n kept CPUs. Tie: regenerated stage order of allocate(), the front-end's three cases and the reviewed list of map ranges (determinism); every real stage execution is checked against the stage contract (packages/cores/threads also relationally), AllocateCpus/ReleaseCpus against the API contract on all subsets x counts of machines with <= 8 online CPUs and sampled larger ones, on two independent discoveries.",
          "Partial: takeIdleClusters/takeCacheGroups bodies are not modelled (only required to satisfy the stage contract, sampled); comparator correctness is irrelevant to the contract; determinism rests on the reviewed map-range list + differential runs.",
          "DESIGN.md §6 C08"),
+ "C16": ("proof", "Lean 4 theorems (list-format round trip on ranges, per-pool CPU split, nesting/disjointness of sockets, dies and node pools, root = available CPUs) + regenerated facts + generated-sysfs correspondence for discovery and for the whole pool tree",
+         "Proved: expand(compress s) = s for every strictly increasing id list; getCpuSupply's isolated/reserved/sharable are pairwise disjoint (given reserved and isolated disjoint - the excluded configuration is the only exception) and cover exactly the pool's available CPUs; pools built from nested CPU sets are nested, from disjoint sets disjoint; sockets/dies of any machine with unique CPU ids are disjoint and nested; the root's supply is exactly the available CPUs. Tie: regenerated shape of getCpuSupply, the quantity-reservation source set and the virtual-root condition; real DiscoverSystemAt on generated sysfs trees compared accessor by accessor with the abstract machine (incl. the PMEM/HBM heuristic); the real policy Setup's pool tree compared pool by pool (names, kinds, parents, depths, CPU split, DRAM/PMEM/HBM sets incl. CPU-less node attachment) with the executable Lean model and checked with the well-formedness predicates.",
+         "Partial: tree shape and memory attachment are not proved in Lean (executable model + predicates on every generated case); string-level sysfs parsing sampled. Known finding C16:memoryless-node-in-child-memset filtered by class.",
+         "DESIGN.md §6 C16"),
  "C17": ("proof", "Lean 4 invariant proof over all event histories + regenerated statement-order facts + exhaustive bounded correspondence",
          "Proved by induction over every event list: the agent's current config is the effective one (node-specific if it exists, else group/default), a valid effective config is the most recently delivered one, no invalid config is ever delivered; per-step theorems: group updates never deliver over or replace a node config but are remembered, node deletion falls back to the current group config, duplicates (same uid+generation, generation != 0) change nothing, valid non-duplicate node updates are delivered in that step. Tie: regenerated facts on statement order in updateGroupConfig/updateNodeConfig/updateConfig/sameConfigVersion, and exhaustive correspondence over all sequences of length <= 4 (quick) / 5 (thorough) over 14 events plus random longer ones, with predicates evaluated from the events alone.",
          "Trusted: kernel, extractor, harness/driver. notifyFn errors, status patching and watch plumbing (Start's select loop) are outside the model.",
